@@ -17,6 +17,8 @@ let run lines =
   | "spec17p" -> Model.run_spec17p lines
   | "acl" -> Model.run_acl_script lines
   | "spec06" -> Model.run_spec06 lines
+  | "model08" -> Model.run_model08 lines
+  | "spec08" -> Model.run_spec08 lines
   | m -> failwith ("unknown mode " ^ m)
 
 let flush_script acc =
